@@ -1058,6 +1058,26 @@ func effectiveBox(lit boxLit) (res boxLit) {
 	return
 }
 
+// DOCINV control: the helper forgets to halve the offset
+
+// tableFor samples g; inputs are normalised with the change of basis (2*x - a - b)/(b-a).
+func tableFor(g func(float64) float64, a, b float64) float64 { return g(unscaleBack(0.5, a, b)) }
+
+func unscaleBack(x, a, b float64) float64 {
+	return x*(b-a)/2.0 + (b + a)
+}
+
+// DELTAPREV control: the last position advances for elements that are skipped
+func walkSelected(sel map[int]bool, n int, step func(int)) {
+	var last int
+	for pos := 0; pos < n; pos++ {
+		if sel[pos] {
+			step(pos - last)
+		}
+		last = pos
+	}
+}
+
 // ADVFWD control: the wrapper halves the forwarded count
 type wrapParams struct{ rows int }
 
